@@ -296,7 +296,7 @@ func RunFaultyOpen(name string, sc Scenario, opts verifmc.Options) (*verifmc.Sch
 	injected := 0
 	var injLog []string
 	dir.Faults = func(op, kind string, id uint64) int {
-		if !enabled {
+		if !enabled || op == "closeh" {
 			return 0
 		}
 		n := 2
